@@ -44,7 +44,7 @@ ASSUMPTIONS = [
 DOMAINS = {
     # name: (durations, thinnings)
     "small": (tuple(range(0, 5)), tuple(range(0, 4))),
-    "wide": (tuple(range(-1, 7)), tuple(range(-1, 6))),
+    "wide": ((-1, 0, 1, 2, 3, 4, 6), (-1, 0, 1, 2, 3, 4)),
     "mid": ((0, 1, 2, 4), (0, 1, 2)),
 }
 
@@ -56,9 +56,9 @@ STAN_QUICK = dict(
     shards=16,
 )
 STAN_THOROUGH = dict(
-    warmup=(0, 1100),
+    warmup=(0, 800),
     posterior=(1, 7, 100, 1000),
-    itb=(1, 2, 3, 5, 10, 25, 50, 75, 100, 150),
+    itb=(1, 2, 3, 5, 10, 25, 50, 75, 100),
     thin=(1, 2, 3, 5),
     shards=64,
 )
@@ -568,6 +568,47 @@ def _chunk_check(res, seen_v, engine, sched, case, label):
     return True
 
 
+def _configure(res, seen_v, b, kind, payload, case):
+    """Hands the schedule to the builder through the entry point under test. All
+    schedules / argument tuples used here are valid / admissible by the reference, so an
+    exception from the real code is a finding, not a harness problem."""
+    from liesel.goose.epoch import EpochConfig, EpochType
+    from liesel.goose.warmup import stan_epochs
+
+    try:
+        if kind == "schedule":
+            if not ref.valid(payload):
+                raise AssertionError("harness: invalid schedule in the builder grid")
+            b.set_epochs([EpochConfig(EpochType(t), d, th, None) for t, d, th in payload])
+        elif kind == "stan":
+            if not ref.stan_admissible(*payload):
+                raise AssertionError("harness: inadmissible stan tuple in the builder grid")
+            b.set_epochs(stan_epochs(*payload))
+        else:
+            w, p, t, tp, tw = payload
+            if not ref.stan_admissible(w, p, 75, t, 25, tp, tw):
+                raise AssertionError("harness: inadmissible set_duration tuple in the builder grid")
+            b.set_duration(w, p, term_duration=t, thinning_posterior=tp, thinning_warmup=tw)
+    except (RuntimeError, ValueError) as e:
+        sig = f"{kind}-rejected"
+        if sig not in seen_v:
+            seen_v.add(sig)
+            res.violation("builder", sig, case, f"builder entry point {kind}{tuple(payload)} raised {_msg(e)} on a valid schedule / admissible arguments")
+        return False
+    return True
+
+
+def _build(res, seen_v, b, kind, case):
+    try:
+        return b.build()
+    except Exception as e:
+        sig = f"{kind}-build-raises"
+        if sig not in seen_v:
+            seen_v.add(sig)
+            res.violation("builder", sig, case, f"EngineBuilder.build() raised {_msg(e)} for a valid schedule")
+        return None
+
+
 def run_builder(unit, res):
     from mc.seams import quiet
     from liesel.goose.epoch import EpochConfig, EpochType
@@ -582,17 +623,14 @@ def run_builder(unit, res):
             res.transitions += 1
             b = _builder(unit["engine_seed"])
             case = {"kind": kind, "args": list(payload) if kind != "schedule" else [list(x) for x in payload]}
+            if not _configure(res, seen_v, b, kind, payload, case):
+                continue
             if kind == "schedule":
-                b.set_epochs([EpochConfig(EpochType(t), d, th, None) for t, d, th in payload])
                 sched = list(payload)
             elif kind == "stan":
-                from liesel.goose.warmup import stan_epochs
-
-                b.set_epochs(stan_epochs(*payload))
                 sched = ref.stan_schedule(*payload)
             else:
                 w, p, t, tp, tw = payload
-                b.set_duration(w, p, term_duration=t, thinning_posterior=tp, thinning_warmup=tw)
                 sched = ref.stan_schedule(w, p, 75, t, 25, tp, tw)
             held = [_as_tuple(c) for c in b.epochs]
             if held != [tuple(x) for x in sched]:
@@ -601,7 +639,9 @@ def run_builder(unit, res):
                     seen_v.add(sig)
                     res.violation("builder", sig, case, f"builder holds the schedule {held}, expected {sched}")
                 continue
-            e = b.build()
+            e = _build(res, seen_v, b, kind, case)
+            if e is None:
+                continue
             _chunk_check(res, seen_v, e, held, case, kind)
             em = [_as_tuple(c) for c in e._epoch_manager._configs]
             if em != held:
@@ -651,15 +691,12 @@ def run_builder_run(unit, res):
             res.executions += 1
             b = _builder(unit["engine_seed"], chains=2)
             case = {"kind": kind, "args": list(payload) if kind != "schedule" else [list(x) for x in payload], "run": True}
-            if kind == "schedule":
-                b.set_epochs([EpochConfig(EpochType(t), d, th, None) for t, d, th in payload])
-            elif kind == "stan":
-                b.set_epochs(stan_epochs(*payload))
-            else:
-                w, p, t, tp, tw = payload
-                b.set_duration(w, p, term_duration=t, thinning_posterior=tp, thinning_warmup=tw)
+            if not _configure(res, seen_v, b, kind, payload, case):
+                continue
             sched = [_as_tuple(c) for c in b.epochs]
-            e = b.build()
+            e = _build(res, seen_v, b, "run-" + kind, case)
+            if e is None:
+                continue
             if not _chunk_check(res, seen_v, e, sched, case, "run-" + kind):
                 continue
             try:
